@@ -5,7 +5,9 @@ ID = "C12"
 LEVEL = "proof"
 FUNCTIONS = ["Trade.__init__", "_Allocation.__init__", "_Allocation.__sub__", "Weights._to_nr_contracts",
              "NrContracts._to_weights", "Rebalancing.make_trades"]
-REPLAYERS = [("Rebalancing.make_trades::raises::ValueError::sound", replayers.make_trades_raises)]
+REPLAYERS = [
+    ("Trade.__init__::", replayers.trade_init),
+("Rebalancing.make_trades::raises::ValueError::sound", replayers.make_trades_raises)]
 LEVEL_TEXT = ("Deductive: Rebalancing.make_trades (with the allocation algebra it calls, each under its own contract) is verified "
               "against `a trade for c is emitted iff imbalance != 0 and (|imbalance weight| >= threshold or c is absent from the "
               "target)`, both directions and for every key, with whole-lot quantities = trunc(imbalance) != 0, no cash and no "
